@@ -53,7 +53,7 @@ fn cfg_for(emit_runtime: bool) -> Config {
         cfg.generate.r#type.scalar_types.insert(s.into(), ScalarTypeConfig::Single("string".into()));
     }
     cfg.generate.emit_schema_runtime = emit_runtime;
-    cfg
+    pipeline::via_config_text(&cfg)
 }
 
 /// SDL route: parse, merge, check, generate (what crates/cli does for `.graphql` schema files)
